@@ -318,3 +318,63 @@ Qed.
 Theorem forward_misc : sink_stores_filter = true /\ ffi_filter_conversion_is_identity = true
   /\ (6 <= List.length public_ctors)%nat.
 Proof. vm_compute. repeat split. repeat constructor. Qed.
+
+(* ---------- the C-ABI filter string ---------- *)
+Lemma digits_nonempty_not_star f v : digits 0 f = Some v -> f <> [] -> is_star f = false.
+Proof.
+  destruct f as [|c [|c' r]]; intros H Hne; try congruence; [|reflexivity].
+  unfold is_star. destruct (N.eqb c ch_star) eqn:E; [|reflexivity].
+  apply N.eqb_eq in E. subst. cbn in H. discriminate.
+Qed.
+
+Lemma parse_octet_get_byte f v : parse_octet f = Some v -> get_byte f = Some (Some v).
+Proof.
+  unfold parse_octet. destruct f as [|c r]; [discriminate|].
+  destruct (N.eqb c ch_zero && negb match r with [] => true | _ => false end); [discriminate|].
+  destruct (Nat.ltb 3 (List.length (c :: r))); [discriminate|].
+  destruct (N.eqb c ch_plus) eqn:Ep; [discriminate|]. intros H.
+  unfold get_byte. rewrite (digits_nonempty_not_star (c :: r) v H) by discriminate.
+  unfold parse_u8. rewrite Ep, H. reflexivity.
+Qed.
+
+Theorem ipv4_literal_is_wildcard s a b c d :
+  parse_ipv4 s = Some (V4 a b c d) ->
+  parse_wildcard s = Some {| b3 := Some a; b2 := Some b; b1 := Some c; b0 := Some d |}.
+Proof.
+  unfold parse_ipv4. intros H. apply parse_wildcard_split.
+  destruct (split s) as [|f3 [|f2 [|f1 [|f0 [|? ?]]]]]; try discriminate.
+  destruct (parse_octet f3) eqn:E3; [|discriminate]. destruct (parse_octet f2) eqn:E2; [|discriminate].
+  destruct (parse_octet f1) eqn:E1; [|discriminate]. destruct (parse_octet f0) eqn:E0; [|discriminate].
+  inversion H; subst. exists f3, f2, f1, f0. cbn [b3 b2 b1 b0].
+  repeat split; auto using parse_octet_get_byte.
+Qed.
+
+Lemma parse_ipv4_is_v4 s x : parse_ipv4 s = Some x -> exists a b c d, x = V4 a b c d.
+Proof.
+  unfold parse_ipv4. destruct (split s) as [|f3 [|f2 [|f1 [|f0 [|? ?]]]]]; try discriminate.
+  destruct (parse_octet f3), (parse_octet f2), (parse_octet f1), (parse_octet f0); try discriminate.
+  intros H; inversion H; eauto.
+Qed.
+
+(* an exact-address set and the all-literal wildcard admit the same peers *)
+Lemma exact_set_vs_wildcard a b c d peer :
+  matches (AnyOf [V4 a b c d]) peer = matches (WildcardIpv4 {| b3 := Some a; b2 := Some b; b1 := Some c; b0 := Some d |}) peer.
+Proof.
+  cbn [matches existsb wc_matches]. destruct peer as [x3 x2 x1 x0|segs]; cbn [ip_eqb bm b3 b2 b1 b0].
+  - rewrite orb_false_r. rewrite (N.eqb_sym a), (N.eqb_sym b), (N.eqb_sym c), (N.eqb_sym d). reflexivity.
+  - reflexivity.
+Qed.
+
+(* every (non-IPv6) filter string accepted by the C ABI denotes a well-formed wildcard string with the
+   same set of admitted peers *)
+Theorem ffi_filter_is_wildcard_semantics s f :
+  ffi_filter_v4 s = Some f ->
+  exists w, wildcard_string s w /\ forall peer, matches f peer = matches (WildcardIpv4 w) peer.
+Proof.
+  unfold ffi_filter_v4. destruct (parse_ipv4 s) as [x|] eqn:E.
+  - destruct (parse_ipv4_is_v4 s x E) as (a & b & c & d & ->). intros H; inversion H; subst.
+    eexists. split; [apply parse_iff; eapply ipv4_literal_is_wildcard; eassumption|].
+    intros peer. apply exact_set_vs_wildcard.
+  - destruct (parse_wildcard s) as [w|] eqn:Ew; [|discriminate]. intros H; inversion H; subst.
+    exists w. split; [now apply parse_iff|reflexivity].
+Qed.
